@@ -1510,12 +1510,30 @@ impl<'comments> Formatter<'comments> {
         let left_precedence = left.binop_precedence();
         let right_precedence = right.binop_precedence();
 
-        let mut left = self.expr(left, false);
+        // An operand that is a block (a sequence, a trace, a todo / fail with its message) keeps
+        // its braces: without them the operator would be swallowed by, or would swallow, the last
+        // expression of the block.
+        let is_block = |expr: &UntypedExpr| {
+            matches!(
+                expr,
+                UntypedExpr::Trace { .. } | UntypedExpr::Sequence { .. }
+            )
+        };
+
+        let mut left = if is_block(left) {
+            self.wrap_block(left)
+        } else {
+            self.expr(left, false)
+        };
         if left.fits(MAX_COLUMNS) {
             left = left.force_unbroken()
         }
 
-        let mut right = self.expr(right, false);
+        let mut right = if is_block(right) {
+            self.wrap_block(right)
+        } else {
+            self.expr(right, false)
+        };
         if right.fits(MAX_COLUMNS) {
             right = right.force_unbroken()
         }
@@ -1989,19 +2007,19 @@ impl<'comments> Formatter<'comments> {
         }
     }
 
+    fn wrap_block<'a>(&mut self, expr: &'a UntypedExpr) -> Document<'a> {
+        "{".to_doc()
+            .append(line().append(self.expr(expr, true)).nest(INDENT))
+            .append(line())
+            .append("}")
+            .force_break()
+    }
+
     fn wrap_expr<'a>(&mut self, expr: &'a UntypedExpr) -> Document<'a> {
         match expr {
-            UntypedExpr::Trace {
-                kind: TraceKind::Trace,
-                ..
-            }
+            UntypedExpr::Trace { .. }
             | UntypedExpr::Sequence { .. }
-            | UntypedExpr::Assignment { .. } => "{"
-                .to_doc()
-                .append(line().append(self.expr(expr, true)).nest(INDENT))
-                .append(line())
-                .append("}")
-                .force_break(),
+            | UntypedExpr::Assignment { .. } => self.wrap_block(expr),
 
             _ => self.expr(expr, false),
         }
